@@ -7,7 +7,10 @@ CFG = dict(
                "shares with a non-empty committee, the modelled validateSSVMessage / validateP2PMessage pipeline (every Go panic site of the path is an explicit "
                "outcome of the model) returns accept/ignore/reject, never panic; supporting lemmas: every panicking switch (maxRound, partialSignatureTypeMatchesRole, "
                "the four MessageCounts switches, the signature array conversion) is dominated by its valid* guard, the round-robin leader index (kernel TRANSLATED "
-               "from the Go source) lies in [0,n) whenever it is computed, size limits precede decoding. PARTIAL: the byte-level decoders (fastssz, JSON, base64, "
+               "from the Go source) lies in [0,n) whenever it is computed, size limits precede decoding; node-record entry decoders (network/records/entries.go, reached from every discovered peer's ENR): "
+               "C08_domain_type_entry_total / C08_subnets_entry_total — for EVERY entry value (byte string of any length, non-string item) the outcome is an error "
+               "or a value, never a panic (short domain type => error, >= 4 bytes => first four; subnets: always 128 entries), tie C08_tie_record_entry_decoders "
+               "(length guard precedes the slice-to-array conversion), regression lemma on the pre-repair decoder (every string shorter than 4 bytes panics). PARTIAL: the byte-level decoders (fastssz, JSON, base64, "
                "libp2p envelopes), hanging and unbounded allocation are not modelled; they are exercised by a malformed-byte stream (fuzzing) through "
                "ValidatePubsubMessage, DecodeSignedSSVMessage, DecodeNetworkMsg, DecodeSSVMessage, SignedNodeInfo/NodeInfo UnmarshalRecord+Consume, Subnets.FromString, "
                "each call under recover with a timeout and an allocation ceiling.",
@@ -23,7 +26,11 @@ CFG = dict(
          "partial-signature messages whose every field is drawn from extreme sets (0, 1, 2^31, 2^32, 2^62, 2^63-1, 2^63, 2^64-1, near-current), known / unknown / "
          "liquidated / metadata-less / exited / pending validators, invalid keys, all roles incl. invalid, clocks from 1969 to the int64 limit; direct kernel ops "
          "(currentEstimatedRound, validateSlotTime, maxDecidedCount, RoundRobinProposer incl. round 0); malformed byte stream (truncation, bit flips, offset/length "
-         "word edits, splices, random, 1 MiB) over real encodings; resource stratum: ONE validator receives a stream (120 quick / 3000 thorough) of messages for ids the "
+         "word edits, splices, random, 1 MiB) over real encodings; node records: entry values for `domaintype` / `subnets` (byte strings of EVERY length 0..40, single bytes, integers, lists, non-canonical / "
+         "truncated items, absent) put into a REAL signed enr.Record, sent through its wire encoding (rlp decode + signature check + enode.New as discv5 does), "
+         "read by records.GetDomainTypeEntry / GetSubnetsEntry (outcome diffed against the Lean model of the decoders) and then run through the real "
+         "discovery code for a discovered node (ToPeer, badNodeFilter, subnetFilter, sharedSubnetsFilter, checkPeer via shim) under the no-panic oracle; fuzz "
+         "target enr-record (mutated wire bytes of whole records); resource stratum: ONE validator receives a stream (120 quick / 3000 thorough) of messages for ids the "
          "node does not serve — distinct well-formed unregistered BLS keys x 7 roles with the right domain, liquidated / metadata-less / exited validators, foreign "
          "domain, invalid roles, malformed keys, every 8th through the pubsub entry point — and, on EVERY call of every case, an oracle on the validator's internals "
          "(shim: sizes of validationLocks and of the consensus-state index before/after): a call for an unserved id leaves no per-id state "
